@@ -156,6 +156,12 @@ func c11(r *ev.Result, tier string) {
 	/* The -log file of the real binary, end to end. */
 	base := ev.Scratch("c11-")
 	c11RealBinary(r, base)
+	/* A slow log sink while output flows and the stream is cancelled. */
+	if isQuick(tier) {
+		c11SlowLogStress(r, 10)
+	} else {
+		c11SlowLogStress(r, 300)
+	}
 	os.RemoveAll(base)
 	r.Rule += "; plus one end-to-end session of the real binary on a pty with -log (accepted input and output, a refused stream, 3 lines, 3 chunks incl. quotes and a non-UTF-8 byte, EOF): every line of the file parses as one JSON object and tells the same story"
 }
